@@ -145,3 +145,17 @@ def _v34(repo, mod):
     fn = repo.func(FS, "FilesystemIsolation._get_arg")
     s = find_stmt(fn, lambda s: isinstance(s, ast.If) and "len(names)" in norm(s.test))
     return replace_node(mod, s, "if index < len(names) and names[index] in kwargs:\n            return kwargs[names[index]]\n        if index < len(names):\n            return None")
+
+
+@variant("C29", "write-mode-by-first-and-last-character", FS, "C29.modes", "`r+b` counts as a read-only mode")
+def _v40(repo, mod):
+    fn = repo.func(FS, "FilesystemIsolation._is_write_mode")
+    r = find_stmt(fn, lambda s: isinstance(s, ast.Return))
+    return replace_node(mod, r.value, 'mode.startswith(("w", "a", "x")) or mode.endswith("+")')
+
+
+@variant("C29", "twin-write-mode-by-set-intersection", FS, None, "the same classification through a set intersection stays silent")
+def _v41(repo, mod):
+    fn = repo.func(FS, "FilesystemIsolation._is_write_mode")
+    r = find_stmt(fn, lambda s: isinstance(s, ast.Return))
+    return replace_node(mod, r.value, 'len([ch for ch in mode if ch in "wax+"]) > 0')
